@@ -1,0 +1,62 @@
+//! Read-only snapshot of hidden terminal/parser state for external verification
+//! harnesses. Compiled only with the `verif` cargo feature; nothing here mutates
+//! anything.
+
+use crate::parser::State;
+use crate::{Line, Pen};
+
+#[derive(Debug, Clone, PartialEq)]
+pub struct SavedCtxState {
+    pub cursor_col: usize,
+    pub cursor_row: usize,
+    pub pen: Pen,
+    pub origin_mode: bool,
+    pub auto_wrap_mode: bool,
+}
+
+#[derive(Debug, Clone, PartialEq)]
+pub struct BufferState {
+    pub cols: usize,
+    pub rows: usize,
+    pub len: usize,
+    pub trim_needed: bool,
+    /// (soft, hard) limits; None = unlimited
+    pub scrollback_limit: Option<(usize, usize)>,
+}
+
+#[derive(Debug, Clone, PartialEq)]
+pub struct ParserState {
+    pub state: State,
+    /// all parameter slots, each as (index of current sub-parameter, sub-parameter values)
+    pub params: Vec<(usize, [u16; 6])>,
+    pub cur_param: usize,
+    pub intermediate: Option<char>,
+}
+
+#[derive(Debug, Clone, PartialEq)]
+pub struct VerifState {
+    pub cols: usize,
+    pub rows: usize,
+    pub alternate_active: bool,
+    pub scrollback_limit: Option<usize>,
+    pub buffer: BufferState,
+    pub other_buffer: BufferState,
+    pub other_lines: Vec<Line>,
+    pub pending_wrap: bool,
+    pub pen: Pen,
+    /// true = DEC special graphics
+    pub charsets_drawing: [bool; 2],
+    pub active_charset: usize,
+    pub tabs: Vec<usize>,
+    pub insert_mode: bool,
+    pub origin_mode: bool,
+    pub auto_wrap_mode: bool,
+    pub new_line_mode: bool,
+    pub cursor_keys_app_mode: bool,
+    pub top_margin: usize,
+    pub bottom_margin: usize,
+    pub saved_ctx: SavedCtxState,
+    pub other_saved_ctx: SavedCtxState,
+    pub dirty_lines: Vec<usize>,
+    pub parser: Option<ParserState>,
+}
